@@ -107,6 +107,37 @@ PROPS["C15"] = dict(
     assumptions=["inputs of at most 2^27-1 bytes for the fixpoint clause only (the decoder's own string limit; every UDP datagram is far below)"],
 )
 
+PROPS["C14"] = dict(
+    engines=["query", "lookups"],
+    rule="query engine: real Server.Query on a fake conn: NumTries 0..4 x {time-out, late reply, cancel/close/reply inside or after the i-th "
+         "send, i-th write fails, blocked, closed, double reply, reply-then-cancel, reply in the abandonment window (sender held in WriteTo), "
+         "stale reply then next query} each repeated 20x; QueryRateLimiting x6 policies x tries 1..4 x budget 0..3 x reply after k-th send; "
+         "lookups engine: Bootstrap / Announce / getput Get / Put with failing / empty / erroring StartingNodes x20, ctx / Close / "
+         "StopTraversing at enumerated points; observables: datagrams per transaction id, result class, OutstandingTransactions, goroutine "
+         "count back to baseline; distinct by the full case line / block",
+    trusted=["goroutines / timers / Go scheduler are counted by the harness, not modelled; sender held through the fake conn and the injected QueryResendDelay"],
+    assumptions=["the traversal issues finitely many DoQuery calls (C03/C04); weak fairness for liveness conclusions"],
+)
+PROPS["C16"] = dict(
+    engines=["lookups"],
+    rule="lookups engine: Server.Announce / AnnounceTraversal on a fake conn against simulated networks of 3-14 nodes (distinct tokens, no token, "
+         "empty token, values, KRPC error, undecodable reply, silent, lying node lists), 7 option combinations, Close / StopTraversing after "
+         "0, 1, 2, n/2 replies, slow consumer, non-reading consumer; StopTraversing with deliveries pending then a slow but reading consumer: "
+         "every response delivered exactly once; observables: announce_peer datagrams (dest, token, infohash, port, implied), Peers contents, "
+         "Finished, goroutines at quiescence",
+    trusted=["K-nearest container abstracted by push_incl / push_len (proved for lk_push, true of kn_push)", "Go scheduler; chansync"],
+    assumptions=["after StopTraversing without Close() the consumer keeps reading Peers (API contract); Close() releases it"],
+)
+PROPS["C12"]["engines"] = ["bep44", "server", "lookups"]
+PROPS["C12"]["rule"] += ("; lookups engine: real getput.Get / Put against simulated nodes with real ed25519 keys answering genuine / forged-value / "
+                         "forged-seq / wrong-signer / wrong-key / other-salt / bit-flip / no-sig / key-without-seq / reused-signature / immutable "
+                         "wrong-value replies")
+PROPS["C12"]["assumptions"] = []
+PROPS["C20"]["engines"] = ["server", "query"]
+PROPS["C20"]["rule"] += "; query engine: QueryRateLimiting policy grid x exact budgets (per-send rated/wait predicate, give-back on failed write)"
+PROPS["C01"]["engines"] = ["server", "maint", "query", "lookups"]
+PROPS["C07"]["engines"] = ["server", "query"]
+
 TRAV_RULE = ("traversal engine: real traversal.Start with a scripted blocking DoQuery; the explorer releases completions, AddNodes and "
              "Stop at quiescent points (hook VerifSnapshot: outstanding == entered-released and cond channel armed / loop exited). "
              "Generators: honest / silent / lying / duplicate-ID / one address under 1..16 IDs repeated across replies and seeds incl. "
